@@ -30,8 +30,9 @@ META = {
                   'final check, so fibre_scheduler_next may return a late wake-up although a request completed; the monitor\'s `disturbed` flag suspends its oversleep/starvation rules while a thread sender is in flight. '
                   'The executable runner (interrupt scripts at numbered gaps, nesting, thread senders, quiescent run) is proved to pass only through reachable states, and without thread senders only through '
                   'states in which no sender is inside a call.',
-    'level_note': 'NOT proved, only checked on every run by the correspondence (sampling + small exhaustive scopes, never called proof): the liveness bound (def dispatch_within_runq_passes; only the FIFO shape lemma '
-                  'dispatch_within_runq_passes_partial is proved) - the monitor\'s `starved` verdict (a request outstanding at the beginning of nf complete undisturbed passes) checks it on the real code; '
+    'level_note': 'dispatch_within_runq_passes is PROVED: a fibre at position i of the run queue is dispatched by one of the next i+1 uninterrupted passes (from every reachable state, hypothesis: runner not cut for fuel), '
+                  'pass_dispatches_the_head, joins_at_the_tail; the monitor\'s `starved` verdict (a request outstanding at the beginning of nf complete undisturbed passes) additionally checks the bound on the real code. '
+                  'NOT proved, only checked on every run by the correspondence (sampling + small exhaustive scopes, never called proof): implementation = model on the compared outputs; '
                   'model_refines_monitor / model_settles PROVE that the abstract monitor never complains about the MODEL (verdict ok: no event out of order, no oversleeping pass, no starved request; after a quiescent run '
                   'ending idle owed = [] and mustget = []) for every history WITHOUT thread-sender items whose calls name existing fibres (decidable scope ItemOk) that is not cut for lack of fuel; with "implementation = model on the compared outputs" '
                   '(sampled) this gives implementation |= spec; for thread-sender items the monitor is only evaluated on the real code\'s output (its liveness rules are suspended while a thread sender is in flight); '
@@ -50,7 +51,7 @@ META = {
 REQUIRED = ['Librfn.C06.' + t for t in (
     'accepted_never_lost', 'held_entry_joins_runq', 'history_accepted_never_lost', 'queues_not_corrupted', 'senders_leave_scheduler_alone',
     'queues_satisfy_mq_inv', 'shifts_defined', 'drained_by_pass', 'drain_leaves_nothing', 'drain_leaves_nothing_quiet', 'fast_path_not_taken',
-    'events_exactly_once_in_order', 'event_carries_its_senders_stamp', 'no_lost_event_wakeup', 'no_lost_event_wakeup_isr',
+    'dispatch_within_runq_passes', 'pass_dispatches_the_head', 'joins_at_the_tail', 'events_exactly_once_in_order', 'event_carries_its_senders_stamp', 'no_lost_event_wakeup', 'no_lost_event_wakeup_isr',
     'wakeup_with_isr', 'wake_value_is_returned', 'wakeup_with_isr_quiet', 'sent_event_keeps_handler_owed', 'model_refines_monitor', 'model_settles', 'model_settled_bool', 'history_reachable', 'history_interrupt_only', 'interrupts_run_to_completion')]
 
 NFMAX = 8
